@@ -100,6 +100,17 @@ func genC05(repo string) (string, error) {
 		Calls: set("IsLeader", "GetDCLocationInfo", "ClusterDCLocationChecker", "GetMaxLocalTSO"), Assigns: set("MaxTs", "Suffix"), Conds: true, Branches: true}); err != nil {
 		return "", err
 	}
+	// the comparison every step of the protocol decides with: lexicographic on (physical, logical) as they are, not on a
+	// composed 64-bit value (an in-memory logical part may exceed 18 bits between an overflowing request and the next tick)
+	tu, err := goast.Load(repo, "pkg/tsoutil/tso.go")
+	if err != nil {
+		return "", err
+	}
+	if csrc, err := funcBodySrc(tu, "", "CompareTimestamp"); err != nil {
+		return "", err
+	} else {
+		o.sb.WriteString("Definition src_CompareTimestamp : string := " + goast.Q(csrc) + ".\n")
+	}
 	cl, err := goast.Load(repo, "client/client.go")
 	if err != nil {
 		return "", err
